@@ -37,7 +37,8 @@ def gen_spec(rng):
     while len(codes) < nst:
         k = rng.random()
         if k < 0.15:
-            c = rng.choice(['VLBI', 'VALV', 'V001', 'AVVV', '0006', '0012', '0036', '1800', 'STAV'])
+            c = rng.choice(['VLBI', 'VALV', 'V001', 'AVVV', '0006', '0012', '0036', '1800', 'STAV',
+                            'VELX', 'VELY', 'VELZ', 'STAX', 'STAY', 'STAZ', 'SITE', 'SOLN', 'COVA', 'ENDS'])
         elif k < 0.3 and codes:
             b = rng.choice(codes)
             c = b[:3] + rng.choice(alphabet)
